@@ -97,6 +97,24 @@ CHECKS = {
     design_ref="DESIGN.md section 6 C14",
     note="Trusts: TLC's string concatenation as the renderer of expected texts. Destination directory exists.",
     technique="TLA+ spec (FileOps.tla RenameToks) + TLC exhaustive token-sequence enumeration + S->I execution of the real command with byte comparison"),
+ "C16": dict(
+    category="model_checking",
+    text="FileOps.tla defines template initialisation (FirstMatch over an ordered pattern sequence, InitResult); TLC (MC_Template) checks NoClobber and Idempotent on all 2,784 cases (ordered maps of up to three of four overlapping patterns with named groups and a date-like capture x six paths incl. missing sub-directories x existing/missing x overwrite x explicit template x extra variable) and emits the expected bytes after one and after two calls. Each case runs the real `zorg template init` (an explicit template through the shared service function) twice with byte comparison, while the interposition layer asserts that an existing target is never written without the overwrite flag; six directed runs drive edit, action open and note move on missing and existing pages.",
+    design_ref="DESIGN.md section 6 C16",
+    note="Trusts: TLC string concatenation as renderer of the expected text; the .zot files of harness/props/c16.py correspond to MC_Template!RenderWith.",
+    technique="TLA+ spec (FileOps.tla InitResult) + TLC law checking and case enumeration + S->I execution with byte comparison and write interposition"),
+ "C17": dict(
+    category="model_checking",
+    text="ActionOpen.tla defines Targets (fold with the identity-position flag), Open, Respond and OptionLaw; TLC (MC_Action) checks OptionLaw on every case and enumerates 6 prefixes x bodies of up to 2/3 words over 15 word forms (plain, ZIDs, page links with/without anchors, local/global/reference links, punctuation wrappings, bracketed ZIDs) x page type x 5 option indices (14k quick / 200k thorough). Each line is written into a page of the designed indexed directory and `zorg action open` runs through main(); stdout must consist of protocol messages equal to the expected ones.",
+    design_ref="DESIGN.md section 6 C17",
+    note="ECHO wording not compared; SEARCH arguments compared without zorg's regex prefix/suffix; `open` stubbed; lines that start with a ZID are outside the property.",
+    technique="TLA+ spec (ActionOpen.tla) + TLC law checking and case enumeration + S->I execution of the real command"),
+ "C18": dict(
+    category="model_checking",
+    text="FileGroups.tla defines Expand (depth-first, in place, in order; date patterns through the TLC-checked Dates.tla); the homomorphism law is checked by TLC on the specification; MC_Groups enumerates 189,000 (group map, argument list) cases per today (acyclic maps over four names, nesting depth 4, shared sub-groups, plain members, date patterns for today..today-6) under 2 (quick, sampled) / 6 (thorough, all) todays across month, year and leap boundaries. The real expand_file_group_paths runs under a frozen clock and must return exactly the expected list; f(a+b) = f(a)+f(b) is also checked on the code.",
+    design_ref="DESIGN.md section 6 C18",
+    note="Trusts: TLC; group maps acyclic; documented pattern fields only.",
+    technique="TLA+ spec (FileGroups.tla) + TLC exhaustive enumeration + S->I replay into the real function"),
 }
 NOT_YET = "check not built yet in this round (planned in DESIGN.md section 6); not claimed until its evidence exists"
 
